@@ -5,7 +5,9 @@ package cdc
 // The real Queue (NewQueue, the run goroutine with its five select arms, loadHead/advanceHead,
 // Enqueue, DeleteRange, the query calls, Close) is driven from the harness main loop; after every
 // operation the harness waits until the manager goroutine is parked again (verifSettle), so the
-// native replay under testing/synctest follows the same schedule.
+// native replay under testing/synctest follows the same schedule. VerifC26InFlight adds several
+// Enqueue calls in flight at once (their requests pile up in enqueueChan while the manager is
+// parked on a response hand-over).
 //
 // bbolt cannot be executed by the engine (mmap/unsafe). In the symbolic run the concrete bbolt
 // functions the queue calls are mapped (spec "models") to the model below: a database file is a
@@ -929,6 +931,102 @@ func VerifC26Step() {
 	for i := 0; i < steps; i++ {
 		h.step(i, vC26NumOps, idx)
 	}
+	h.epilogue()
+}
+
+// verifC26Call is one Enqueue call in flight, seen from the manager: the request the caller has
+// put into enqueueChan (first half of Enqueue) and the acknowledgement it is waiting for (second
+// half of Enqueue, played by a goroutine of its own, as a real caller is).
+type verifC26Call struct {
+	idx  uint64
+	data []byte
+	resp chan enqueueResp
+	err  error
+	done bool
+}
+
+func (h *verifC26) submit(idx uint64) *verifC26Call {
+	c := &verifC26Call{idx: idx, data: h.payload(), resp: make(chan enqueueResp)}
+	h.q.enqueueChan <- enqueueReq{idx: c.idx, item: c.data, respChan: c.resp}
+	return c
+}
+
+func verifC26Await(c *verifC26Call) {
+	r := <-c.resp
+	c.err = r.err
+	c.done = true
+}
+
+// VerifC26InFlight: several Enqueue calls are in flight at once. The manager is busy with one
+// caller (it has handled the request and waits for that caller to take its acknowledgement, as it
+// does whenever the caller's goroutine is slow to be scheduled) while the requests of 2 (quick)
+// / 1..3 (thorough) further callers arrive in enqueueChan; then every caller takes its
+// acknowledgement. The file holds no item and any max_key (quick) / ANY state of 0..1 items left
+// by an earlier incarnation, emitted or not (thorough); the indexes are arbitrary uint64s.
+// Oracle: the statement's sequential model applied to the requests in the order in which they
+// arrived at the manager (the order of a FIFO channel; every call is acknowledged; an index at or
+// below the highest index stored BEFORE IT - by an earlier incarnation or by a request that arrived
+// earlier - is ignored, every other one is stored with its own payload), compared through the
+// queries, the emitted events and the state after a restart.
+func VerifC26InFlight() {
+	verifPanicsAreViolations()
+	maxLate := 3
+	h := verifNewC26()
+	defer h.finish()
+
+	n := 0 // quick: an empty file with any max_key (everything stored earlier was deleted)
+	if verifTier() == 1 {
+		n = verifChoice("n", 2)
+	}
+	for i := 0; i < n; i++ {
+		h.keys = append(h.keys, verifU64(verifName("key", i)))
+		h.data = append(h.data, h.payload())
+	}
+	h.highest = verifU64("maxKey")
+	if n > 0 {
+		verifAssume(h.highest >= h.keys[n-1])
+	}
+	verifSeedDB(h.path, h.keys, h.data, h.highest)
+	h.open()
+	h.observe()
+	for c := verifChoice("consumed", n+1); c > 0; c-- {
+		h.consume()
+	}
+
+	late := 2
+	if verifTier() == 1 {
+		late = 1 + verifChoice("late", maxLate)
+	}
+	calls := make([]*verifC26Call, 0, late+1)
+	// the first caller's request is handled; the manager now offers the acknowledgement
+	calls = append(calls, h.submit(verifU64("idx0")))
+	verifSettle()
+	// meanwhile the other callers' requests pile up
+	for i := 1; i <= late; i++ {
+		calls = append(calls, h.submit(verifU64(verifName("idx", i))))
+	}
+	for _, c := range calls {
+		go verifC26Await(c)
+	}
+	verifSettle()
+
+	stored := 0
+	for _, c := range calls {
+		verifAssert("C26-in-flight-enqueue-returns", c.done)
+		verifAssert("C26-in-flight-enqueue-acknowledged", c.err == nil)
+		if c.idx > h.highest {
+			h.keys = append(h.keys, c.idx)
+			h.data = append(h.data, c.data)
+			h.highest = c.idx
+			stored++
+		} else {
+			verifReach("in-flight-dup-ignored")
+		}
+	}
+	if stored >= 2 {
+		verifReach("in-flight-several-stored")
+	}
+	h.observe()
 	h.epilogue()
 }
 
